@@ -24,6 +24,7 @@ Failed(r) ==
   \cup (IF Has(r, "nonneg") /\ ~r.nonneg THEN {"negative"} ELSE {})
   \cup (IF Has(r, "must_pos") /\ r.must_pos /\ ~r.pos THEN {"not-positive"} ELSE {})
   \cup (IF Has(r, "ok") /\ ~r.ok THEN {"observation-false"} ELSE {})
+  \cup (IF Has(r, "lam6") /\ r.lam6 <= 10000 THEN {"not-definite"} ELSE {})   \* 10^6 * lambda_min > 0.01 * 10^6
 
 Init == l = 1 /\ bad = {} /\ seen = {}
 Step ==
